@@ -396,10 +396,14 @@ def runtime_cases(rng, n_layout):
                         mods = {}
                         file = "main"
                     else:
-                        lib = pad_lines + "pub fn work() {\n" + body + "}\nfn main() {}\n"
-                        if where == "module-global-fn":
-                            lib = "fn inner() {\n" + body + "}\n" + pad_lines + "pub fn work() {\n    inner();\n}\nfn main() {}\n"
+                        # (a module without globals has an empty '@init' routine, finding V31: keep one global)
+                        lib = "let LIBG = 1;\n" + pad_lines + "pub fn work() {\n" + body + "}\nfn main() { println(LIBG); }\n"
                         main = "import work from lib;\nfn main() {\n" + (call % "    work();\n") + "}\n"
+                        if where == "module-global-fn":
+                            # the handler sits in `work` itself: a throw that crosses two frames is finding V11 (open)
+                            lib = ("let LIBG = 1;\nfn inner() {\n" + body + "}\n" + pad_lines
+                                   + "pub fn work() {\n" + (call % "    inner();\n") + "}\nfn main() { println(LIBG); }\n")
+                            main = "import work from lib;\nfn main() {\n    work();\n}\n"
                         mods = {"lib": lib}
                         file = "lib"
                     text = main if file == "main" else mods[file]
@@ -508,7 +512,7 @@ class Result:
         if self.raw.startswith(("CRASH", "HANG")):
             what = bytes.fromhex(self.raw.split(" ")[1][1:]).decode("utf-8", "replace")
             if "watchdog" in what:
-                return f"does not return within {LIMIT_S}s (hang)"
+                return "does not return (killed by the watchdog: hang)"
             return "process died: " + what[:120]
         return self.raw[:160]
 
@@ -618,7 +622,7 @@ def build_streams(ctx, toks, corp, want_items=False):
     streams.append(("import-graphs", g))
 
     # corpus: every shipped program with all the others available as modules
-    cs = [{"main": t, "mods": {k: v for k, v in mods_all.items() if k != n}, "stream": "corpus:" + n} for n, t in corp]
+    cs = [{"main": t, "mods": mods_all, "stream": "corpus:" + n} for n, t in corp]
     gens = generated_programs(rng, 10 if quick else 60)
     cs += [{"main": t, "mods": {}, "stream": "generated:" + n} for n, t in gens]
     streams.append(("corpus", cs))
@@ -866,3 +870,9 @@ def wild_cases(rng, n):
         else:
             out.append({"main": p, "mods": WILD_MODS, "stream": "wild"})
     return out
+
+
+def locate_index(text, idx):
+    """(line, column) of the rune index `idx` of `text` (str): 1 + newlines before, 1 + runes since the last newline."""
+    pre = text[:idx]
+    return pre.count("\n") + 1, idx - (pre.rfind("\n") + 1) + 1
